@@ -3,6 +3,7 @@ import copy
 import json
 
 import common as C
+import srctie
 
 META = dict(
     id="C20",
@@ -1054,6 +1055,10 @@ def discover_view(ctx, rep):
 def run(ctx):
     rep = C.Report(ctx, META)
     rep.add_obligations(C.proof_obligations("C20"))
+    # source tie: exception_to_python and what it calls re-translated from the source text; srcproofs/Src_load_gate_C20.v re-checked
+    src_obs, src_info = srctie.obligations(ctx, "load_gate", "C20")
+    rep.add_obligations(src_obs)
+    rep.extra["source_tie"] = src_info
     corpus = [c for _name, c in C.load_corpus("C20")]
     if corpus:
         explore(ctx, rep, corpus, "corpus")
